@@ -12,7 +12,7 @@ RECV_FAULTS = ("reset", "timeout", "exc")
 WAIT_FAULTS = ("oserror", "exc")
 
 
-def base_script(case, stream_override=None, end_override=None):
+def base_script(case, stream_override=None, end_override=None, silent=False):
     pre = build.build_session(case["msgs"])
     post = build.build_session(case["msgs2"])
     script = [["wait_request"]]
@@ -28,12 +28,13 @@ def base_script(case, stream_override=None, end_override=None):
         script.append(["stream", [["bytes", bytes(post2.data)]], "whole", 0.0])
     else:
         script.append(["stream", [["bytes", bytes(post.data)]], "whole", 0.0])
-    script.append([case["end"], 0.5])
+    if not silent:
+        script.append([case["end"], 0.5])
     return script, pre, post
 
 
-def base_scenario(case, faults=None, addrs=None, resolve=None, stream_override=None, end_override=None):
-    script, pre, post = base_script(case, stream_override, end_override)
+def base_scenario(case, faults=None, addrs=None, resolve=None, stream_override=None, end_override=None, silent=False):
+    script, pre, post = base_script(case, stream_override, end_override, silent)
     reactions = copy.deepcopy(case["sends"])
     if case["client_close"] is not None:
         reactions.append({"when": ["msg", case["client_close"]], "do": [["close", 1000, "cli"]]})
@@ -45,7 +46,8 @@ def base_scenario(case, faults=None, addrs=None, resolve=None, stream_override=N
     if resolve:
         att["resolve"] = resolve
     copts = {"poll": 1.0, "ping_rate": 1.0 if case["idle"] else 0, "close_timeout": 5.0}
-    return build.scenario(script, reactions=reactions, connect_opts=copts, attempt_extra=att, horizon=2000.0)
+    return build.scenario(script, reactions=reactions, connect_opts=copts, attempt_extra=att,
+                          horizon=300.0 if silent else 2000.0)
 
 
 class C09(Prop):
@@ -182,6 +184,30 @@ class C09(Prop):
                           before_connected=(k == 0), faults={"send": {str(k): f}})
                 if bad:
                     return failed(bad[0], bad[1], labels, True, sub)
+        # 3b. "never leaves it waiting forever": a write fails WITHOUT breaking the transport
+        # (timeout / arbitrary exception) and the server then stays connected but silent.  When
+        # the closing handshake had been started (close_timeout = 5 s here) the connection must
+        # still end by itself; otherwise staying connected is legitimate.
+        if case["client_close"] is not None or case["server_close"]:
+            for k in range(1, n_send):
+                for f in ("timeout", "exc"):
+                    tr = simnet.run_scenario(base_scenario(case, faults={"send": {str(k): f}}, silent=True))
+                    sub.append(("silent:%d:%s" % (k, f), True))
+                    labels.add("fault:send_then_silence")
+                    closing_started = False
+                    for e in tr.sim.log:
+                        if e[0] in ("send", "send_fail") and not e[2].startswith(b"GET "):
+                            frames, _ = wire.decode_frames(e[2])
+                            closing_started = closing_started or any(fr.opcode == wire.CLOSE for fr in frames)
+                    if tr.escaped:
+                        return failed("escaped_exception", tr.escaped, labels, True, sub)
+                    if tr.hang:
+                        return failed("hang", tr.hang, labels, True, sub)
+                    if tr.horizon and closing_started and "ready" in tr.names():
+                        return failed("waits_forever_after_failed_write",
+                                      "sendall #%d failed with %s, the server stayed silent; the client had started the "
+                                      "closing handshake (close_timeout=5s) but was still iterating at virtual time %s; "
+                                      "last events %s" % (k, f, tr.sim.now, tr.names()[-5:]), labels, True, sub)
         # 4. every recv
         for k in range(n_recv + 1):
             for f in RECV_FAULTS:
